@@ -415,6 +415,9 @@ def rebuild_same_automaton(kind, seed, n_games, backend='cudd'):
                     cp = lambda u: fresh.bdd.copy(u, aut.bdd)
                     aut.win['<>[]'] = [cp(u) for u in fresh.win['<>[]']]
                     aut.win['[]<>'] = [cp(u) for u in fresh.win['[]<>']]
+                    if n % 3 == 0:
+                        # the actions change as well between the two syntheses
+                        aut.action['env'], aut.action['sys'] = cp(fresh.action['env']), cp(fresh.action['sys'])
                 desc = dict(env=de, sys=ds, moore=moore, plus_one=plus_one, qinit=qinit,
                             liveness_counts_in_turn=str(seq[:round_ + 1]), game_no=n, seed=seed)
                 as_set = (list(aut.win['<>[]']), list(aut.win['[]<>']))
